@@ -391,9 +391,26 @@ func TestC16(t *testing.T) {
 	rig.Main(t, "C16", "rapid: an emitter history (labels, references on both sides, data, comments, optional base, width assumptions, refused calls) x every kind of split point x listing on/off: "+
 		"the head goes to an emitter A, the tail to A.Clone(), then A.Append(clone) (in a third of the cases a second clone of A receives the same tail one byte further on and is discarded); a direct emitter D receives the whole history.  Before Append A must equal its snapshot at the split on bytes, "+
 		"length, PC, flags, all labels and both listings although the clone was emitted into, listed and finalised; after Append A must equal D on all of these, on Finalize()'s verdict and on the "+
-		"finalized bytes; an Append that is 1..n bytes too large must panic and leave A unchanged; in a quarter of the cases Finalize is also called at the split point on both sides.  Non-trivial = a label is defined on one side of the split and referenced on the other; distinct = hash(case).",
+		"finalized bytes; an Append that is 1..n bytes too large must panic and leave A unchanged; in a quarter of the cases Finalize is also called at the split point on both sides; programs that run across a bank boundary are split at every point.  Non-trivial = a label is defined on one side of the split and referenced on the other; distinct = hash(case).",
 		func(r *rig.Run) {
 			ev := r.Ev
+			// programs that run across a bank boundary (base 8 bytes below it), a label on either side, the same label defined
+			// again in the tail (refused on both sides), every split point
+			if rig.Shard() == 0 {
+				nop := asmcat.Op{Kind: "ins", Method: "NOP"}
+				for _, base := range []uint32{0x00FFF8, 0x7EFFF8, 0xFFFFF8} {
+					ops := []asmcat.Op{{Kind: "setbase", V: base}, {Kind: "label", Label: "l0"}, nop, nop, {Kind: "ins", Method: "BRA", Label: "l0"}, nop, nop, nop, nop, nop, nop,
+						{Kind: "label", Label: "loop"}, nop, {Kind: "label", Label: "l0"}, {Kind: "ins", Method: "BRA", Label: "loop"}, {Kind: "label", Label: "loop"}, {Kind: "ins", Method: "JMP_abs", Label: "l0"}, {Kind: "label", Label: "done"}, nop}
+					for split := 0; split <= len(ops); split++ {
+						for _, listing := range []bool{false, true} {
+							c := c16Case{Ops: ops, Split: split, Listing: listing}
+							r.CheckSweep("rapid", c, func() error { return c16Check(c) })
+							ev.Case(true, rig.Hash64("cross-bank", base, split, listing), func() interface{} { return c })
+							ev.Class("program-runs-across-a-bank-boundary")
+						}
+					}
+				}
+			}
 			r.Rapid("rapid", rig.Pick(25000, 100000), func(t *rapid.T) {
 				c := c16Case{Listing: rapid.Bool().Draw(t, "listing")}
 				c.Ops = asmcat.GenHistory(t, asmcat.GenOpts{MaxOps: rig.Pick(30, 80), Labels: true, Data: true, Comments: true, SetBase: true, Assume: true, BadGuard: true})
